@@ -38,9 +38,21 @@ class FakeTime:
 
     def __init__(self):
         self.now = START
+        self.ticks = None       # e.g. [1] / [0, 1]: seconds the clock advances after the k-th reading
+        self.k = 0
+        self.readings = []      # the readings of the current repozo run
 
     def gmtime(self, *a):
-        return _time.gmtime(a[0] if a else self.now)
+        if a:
+            return _time.gmtime(a[0])
+        t = self.now
+        self.readings.append(t)
+        if self.ticks:
+            # the clock moves on WHILE repozo runs (opening a big Data.fs takes seconds): every
+            # reading may already show a later second than the previous one
+            self.now += self.ticks[self.k % len(self.ticks)]
+            self.k += 1
+        return _time.gmtime(t)
 
     def time(self):
         return float(self.now)
@@ -410,6 +422,8 @@ class Run:
         self.ntid = 0
         self.tids = []
         _FT.now = START
+        _FT.ticks = self.case.get('tick') or None
+        _FT.k = 0
         try:
             self.sync_source()
             for st in self.case['steps']:
@@ -559,9 +573,19 @@ class Run:
             if quick_decides:
                 self.count('quick-backup:QuickDetectable=%s' % qd)
         argv = ['-B', '-r', self.repo, '-f', self.fsn] + ['-' + c for c in flags]
+        _FT.readings = []
         status, _out, msg = run_main(argv)
         after = set(os.listdir(self.repo))
         new = sorted(n for n in after - before if DATA_RE.match(n))
+        if new:
+            # the date of a backup is the one in its data file's name: one of the clock readings of
+            # the run (repozo reads the clock once for find_files and once for the names)
+            import calendar
+            stem_t = calendar.timegm(tuple(int(x) for x in DATA_RE.match(new[0]).groups()[:6]))
+            if stem_t not in _FT.readings:
+                self.violation('C18:backup-names', 'data file %s is not named after a clock reading of '
+                               'its run %r' % (new[0], [dashed(t) for t in _FT.readings]))
+            now = stem_t
         self.all_backups.append((now, committed))
         ctx = ('in-progress' if tail else 'after-pack' if self.pack_since_backup else 'plain')
         if status != 0:
@@ -599,8 +623,16 @@ class Run:
                                           ':after-pack' if self.pack_since_backup else ''))
             if not full and len(c) == 0:
                 self.count('backup:empty-incremental')
-            if len(new) != 1 or DATA_RE.match(n).groups()[:6] != tuple(dashed(now).split('-')):
-                self.violation('C18:backup-names', 'unexpected new data files %r at %s' % (new, dashed(now)))
+            # every file written by one backup run carries the same date: the data file, its .index,
+            # and (full backup) its .dat -- do_recover looks the index up under the data file's name
+            stem = os.path.splitext(n)[0]
+            written = sorted(x for x in after - before if x != 'tmp.tmp')
+            expect = sorted([n, stem + '.index'] + ([stem + '.dat'] if full else []))
+            if 'k' in flags and full:
+                written = [x for x in written if os.path.exists(os.path.join(self.repo, x))]
+            if written != expect:
+                self.violation('C18:backup-names', 'backup at %s wrote %r, expected %r (all files of one '
+                               'backup share the date of its data file)' % (dashed(now), written, expect))
         self.pack_since_backup = False
         self.count('flags:' + (flags or '-'))
         self.trace.append('backup %s -> %s' % (flags or '-', obs.split()[0]))
@@ -707,10 +739,11 @@ class Run:
 
     def verify(self, quick):
         argv = ['-V', '-r', self.repo] + (['-Q'] if quick else [])
+        now = _FT.now
         status, _out, msg = run_main(argv)
         kind = err_kind(status, msg)
         self.count('verify%s:%s' % ('-Q' if quick else '', kind))
-        self.emit('verify %d %s' % (int(quick), d14(_FT.now)), 'ok' if status == 0 else 'err')
+        self.emit('verify %d %s' % (int(quick), d14(now)), 'ok' if status == 0 else 'err')
         return status == 0, kind
 
     def final_phase(self):
@@ -735,8 +768,10 @@ class Run:
             vs = variants if nvar >= len(variants) else rng.sample(variants, nvar)
             if first and (0, 'o', 1) not in vs:
                 vs = vs + [(0, 'o', 1)]
+            deep = True      # once per date: open the recovered file WITH the restored index
             for w, m, p in vs:
-                self.recover(d, w, m, p, deep=first)
+                self.recover(d, w, m, p, deep=deep and m == 'o')
+                deep = deep and m != 'o'
             first = False
         # -- verify the intact repository
         for q in (False, True):
@@ -943,7 +978,11 @@ def main(argv=None):
         cases += corpus_cases()
     for i in range(nscen):
         steps = gen_scenario(ck.rng, ck.rng.choice([6, 10, 14, 20]))
-        cases.append(dict(steps=steps, final=dict(final, seed=ck.rng.randrange(10 ** 6))))
+        case = dict(steps=steps, final=dict(final, seed=ck.rng.randrange(10 ** 6)))
+        if ck.rng.random() < 0.4:
+            # the clock moves on during a repozo run: +n seconds after the k-th reading (cyclic)
+            case['tick'] = ck.rng.choice([[1], [1], [0, 1], [1, 0], [2], [0, 0, 1], [1, 3]])
+        cases.append(case)
     jobs = [(ck.tmp, c, str(i)) for i, c in enumerate(cases)]
     if ck.thorough and len(jobs) > 8:
         import multiprocessing
@@ -962,7 +1001,7 @@ def main(argv=None):
         pos += 1 + len(res['lines'])
         for k, v in res['counts'].items():
             ck.count(k, v)
-        canon = dict(steps=case['steps'], final=case.get('final'))
+        canon = dict(steps=case['steps'], final=case.get('final'), tick=case.get('tick'))
         ck.case(canon, res['nontrivial'],
                 sample=dict(trace=res['trace'][:12], recover=[(o, r) for o, r in res['lines']
                                                               if o.startswith('recover')][:3])
@@ -980,7 +1019,7 @@ def main(argv=None):
         if diffs and not res['violations']:
             i, op, real, m = diffs[0]
             ck.mismatch('model/impl differ at %r: impl %r model %r' % (op[:80], real, m),
-                        dict(steps=case['steps'], final=case.get('final'), line=i,
+                        dict(steps=case['steps'], final=case.get('final'), tick=case.get('tick'), line=i,
                              ops=[o[:200] for o, _ in res['lines'][max(0, i - 8): i + 1]]))
         if expect_excluded:
             ck.extra.setdefault('coverage', {}).setdefault('excluded_points', []).append(
